@@ -322,7 +322,7 @@ def step(self, inst):
 '''
 for cond in ('ALWAYS', 'IF_FALSE', 'IF_TRUE'):
     for rk in ('bool', 'int', 'none'):
-        c = contract(M, 'step', serves=['C05', 'C01'], src=SRC_STEP, name='lemma:JUMP %s [result %s]' % (cond, rk))
+        c = contract(M, 'step', serves=['C05', 'C01', 'C04', 'C02'], src=SRC_STEP, name='lemma:JUMP %s [result %s]' % (cond, rk))
         def _setup(b, case, cond=cond, rk=rk):
             m = lib.machine(b, 'LOGICAL', lib.light_set_with(b, {}))
             m.attrs['_reg'].attrs['result'] = None if rk == 'none' else b.sym(rk, 'result')
